@@ -758,7 +758,7 @@ func (c *vfGateConn) run(k vfGateCmd, ans vfGateAns, last bool) (op string, impl
 	} else {
 		f, err := c.readFrame(5 * time.Second)
 		if err != nil && !vfGateIsTimeout(err) && c.tlsDone && k.Name == "IDENTIFY" && k.Ob != 0 {
-			// audit A2 (known finding second-identify-cleartext, fix F30): the answer to an IDENTIFY with an
+			// audit A2 (finding second-identify-cleartext, fixed by F30 = /repo d6aa4e3): the answer to an IDENTIFY with an
 			// output_buffer_size sent inside TLS arrived underneath it, as a plain frame on the raw socket
 			// (with output_buffer_size -1 the frame leaves in three TCP writes: read the rest off the raw socket)
 			pf := vfGateParseFrame(c.tap.since(tapMark))
